@@ -527,7 +527,7 @@ def site_case(sv, wd, emptydir):
         elif r < 0.8:
             b = rng.choice(builtin)
             cli.append(b + '/' + (rng.choice(GAME_KEYS if b == 'Game' else ['Kx', 'Ky']) + '=' + rng.choice(PLAIN_VALUES) if b != 'Template:footer' else '<i>c</i>'))
-        elif listed:
+        elif listed and rng.random() < 0.6:
             cli.append('Config/RefFiles=' + ';'.join(rng.sample(listed, rng.randint(0, len(listed)))))
         else:
             cli.append('Config/GameDir=h')
@@ -571,13 +571,17 @@ def site_case(sv, wd, emptydir):
         return dict(k='crash', key='s%d' % sv, meta=meta, err=(err or out)[-400:], exit=code)
     with open(ofile) as f:
         obs = json.load(f)
+    outdir = os.path.join(d, 'out')
+    made = sorted(os.listdir(outdir)) if os.path.isdir(outdir) else []
+    if len(made) != 1:
+        return dict(k='crash', key='s%d' % sv, meta=meta, err='entries of the output directory: %r' % made, exit='OutputDirectory: %d entries' % len(made))
     auto_order = sorted(n for n in auto_names if n != 'game.ref')
     if 'game.ref' in auto_names:
         auto_order.insert(0, 'game.ref')
     eff = {'Base': str(obs['base']), 'Case': str(obs['case'])}
     return dict(k='site', key='s%d' % sv, auto=[encl(files[n]) for n in auto_order],
                 dir=[dict(name=enc(n), lines=encl(files[n])) for n in extra_names + cmd_names], cmd=[enc(n) for n in cmd_names],
-                cli=encl(cli + ['Config/HtmlWriterClass=' + wspec]), uq=obs['uq'], q=obs['q'], fam=obs['fam'],
+                cli=encl(cli + ['Config/HtmlWriterClass=' + wspec]), gamedir=enc(made[0]), skool=enc('game'), uq=obs['uq'], q=obs['q'], fam=obs['fam'],
                 cfg=[cfg_record('skool2html', base, ini or [], icli, shown, shownc, eff)], meta=meta)
 
 
